@@ -437,11 +437,14 @@ def oracle_lines(h, impl):
             before = {tr[0] for tr in prev}
             after = {tr[0] for tr in a['tracks']}
             target = e.build(op[2])[1] if (k == 'U' and a['exn'] is None) else None
+            touched = {tr[0] for _, tr in a['events']} | (before ^ after)
+            last = not any(o[0] in ('U', 'C', 'P') for o in h['ops'][i + 1:])
             for m in ms:
                 lines.append(f"trk_expected {'N' if target is None else target} {m} {int(m in before)} {int(m in after)}")
                 index.append(('expected', i, m))
-                lines.append(f"trk_alive {m} {','.join(trace) or '_'}")
-                index.append(('alive', i, m))
+                if m in touched or last:       # the automaton state of m can only change where m has events
+                    lines.append(f"trk_alive {m} {','.join(trace) or '_'}")
+                    index.append(('alive', i, m))
         if k not in ('L', 'G'):
             prev = a['tracks']
     return lines, index
@@ -554,9 +557,11 @@ def evaluate(h, impl, lines, index, replies):
                     bad.append(('C15', i, dict(sig, component='events', kind=f'expected:{exp}:got:{g}'),
                                 f'step {i}: {sig["entry"]} delivered events "{g}" for MMSI {m}, the life cycle demands "{exp}" '
                                 f'(c=CREATED u=UPDATED d=DELETED, _ = none)'))
-                al = ans[('alive', i, m)]
+                al = ans.get(('alive', i, m))
                 tracked = m in keys
-                if al == 'N':
+                if al is None:
+                    pass
+                elif al == 'N':
                     bad.append(('C15', i, dict(sig, component='trace', kind='outside-language'),
                                 f'step {i}: the events of MMSI {m} so far are not in (CREATED UPDATED* DELETED)*'))
                 elif (al == '1') != tracked:
@@ -657,6 +662,13 @@ def check_histories(ctx, prop, hs, queries_only_for=('C14',), sample_every=401, 
         rep.disagree('H-tracker-reflection', {}, 'modelled attribute structure', p)
     e.problems.clear()
     chunk = 24
+    shrunk = getattr(ctx, '_shrunk', None)
+    if shrunk is None:
+        shrunk = set()
+        try:
+            ctx._shrunk = shrunk
+        except Exception:
+            pass
     for c0 in range(0, len(hs), chunk):
         part = hs[c0:c0 + chunk]
         impls = [run_impl(h) for h in part]
@@ -668,7 +680,7 @@ def check_histories(ctx, prop, hs, queries_only_for=('C14',), sample_every=401, 
             continue
         mrep = ctx.model.ask_many(mlines, batch=6)
         flat = [ln for lines, _ in ol for ln in lines]
-        orep = ctx.model.ask_many(flat, batch=48)
+        orep = ctx.model.ask_many(flat, batch=32)
         pos = 0
         for h, a, mr, (lines, index) in zip(part, impls, mrep, ol):
             replies = orep[pos:pos + len(lines)]
@@ -690,8 +702,12 @@ def check_histories(ctx, prop, hs, queries_only_for=('C14',), sample_every=401, 
                 if key in seen:
                     continue
                 seen.add(key)
-                rep.violation(sig, f'[{mode(h)}, ttl {h["cfg"]["ttl_q"]}/4 s] ' + text + ' -- history: ' + short(h),
-                              {'history': h, 'step': step, 'signature': sig})
+                h2 = h
+                if key not in shrunk and len(shrunk) < 6:
+                    shrunk.add(key)
+                    h2, step, text = shrink(ctx.model, prop, h, step, sig, text)
+                rep.violation(sig, f'[{mode(h2)}, ttl {h2["cfg"]["ttl_q"]}/4 s] ' + text + ' -- history: ' + short(h2),
+                              {'history': h2, 'step': step, 'signature': sig})
             if diff is not None:
                 step, comp, mv, iv = diff
                 excused = [b for b in others if b[1] <= step]
@@ -703,6 +719,47 @@ def check_histories(ctx, prop, hs, queries_only_for=('C14',), sample_every=401, 
                 rep.sample({'cfg': h['cfg'], 'ops': [short_op(op) for op in h['ops']][:14],
                             'final_tracks': [(t[0], t[1]) for t in a[-1]['tracks']] if a else [],
                             'events': [[ev + str(tr[0]) for ev, tr in x['events']] for x in a][:14]})
+
+
+def violations_of(model, prop, h):
+    impl = run_impl(h)
+    lines, index = oracle_lines(h, impl)
+    replies = model.ask_many(lines, batch=32)
+    return [b for b in evaluate(h, impl, lines, index, replies) if b[0] == prop]
+
+
+def shrink(model, prop, h, step, sig, text):
+    """Greedy minimisation of a violating history: cut what follows the violating step, then drop single
+    operations, as long as a violation with the same signature remains."""
+    def still(hh):
+        try:
+            for b in violations_of(model, prop, hh):
+                if b[2] == sig:
+                    return b
+        except Exception:
+            return None
+        return None
+    best = (h, step, text)
+    cut = {'cfg': h['cfg'], 'ops': h['ops'][:step + 1]}
+    b = still(cut)
+    if b:
+        best = (cut, b[1], b[3])
+    changed = True
+    rounds = 0
+    while changed and rounds < 4:
+        changed = False
+        rounds += 1
+        i = len(best[0]['ops']) - 1
+        while i >= 0:
+            ops = best[0]['ops']
+            if not (ops[i][0] == 'A' and ops[i][2] >= 100):
+                cand = {'cfg': h['cfg'], 'ops': ops[:i] + ops[i + 1:]}
+                b = still(cand)
+                if b:
+                    best = (cand, b[1], b[3])
+                    changed = True
+            i -= 1
+    return best
 
 
 def short_op(op):
@@ -884,7 +941,7 @@ def run_common(ctx, prop):
     hs = directed_histories(rng)
     if with_q:
         hs = [add_queries(h) for h in hs]
-    n = ctx.budget(700, 12000)
+    n = ctx.budget(300 if with_q else 500, 12000)
     for i in range(n):
         kind = 'broker' if (prop == 'C15' and i % 4 == 0) or i % 10 == 0 else ('ttl' if prop == 'C13' or i % 2 else 'mixed')
         hs.append(gen_history(rng, kind, with_queries=with_q))
@@ -962,7 +1019,7 @@ def replay_common(ctx, prop, data):
     try:
         impl = run_impl(h)
         lines, index = oracle_lines(h, impl)
-        replies = model.ask_many(lines, batch=48)
+        replies = model.ask_many(lines, batch=32)
         bad = [b for b in evaluate(h, impl, lines, index, replies) if b[0] == prop]
     finally:
         if ctx.model is None:
